@@ -1,5 +1,6 @@
 import Litep2pVerif.Proofs.Wire.KadEncoders
 import Litep2pVerif.Proofs.Wire.Identify
+import Litep2pVerif.Proofs.Node.Wiring
 /-!
 # C19 — Bytes from the network can never panic or over-allocate a decoder
 
@@ -439,3 +440,43 @@ open Litep2pVerif.Props.C19 in
 #print axioms identify_own_roundtrip
 open Litep2pVerif.Props.C19 in
 #print axioms identify_inbound_prefix
+
+/-! ## Wiring — the configured message limit on substreams negotiated under a FALLBACK name (added after seeded C19-e1)
+
+Over the wiring model `Model/Node/Wiring.lean` (`Node.new c` = `Litep2p::new(ConfigBuilder…build())`, `notes` / `tcpHeld` =
+what the constructed protocol objects / the TCP transport hold, `protocolCodec` = `ProtocolSet::protocol_codec`), tied to
+the real code by the `node` area: real nodes built through the public API print what the CONSTRUCTED objects hold and what
+a connection's `ProtocolSet` answers for every main and fallback name; the driver prints the model's; compared exactly. -/
+namespace Litep2pVerif.Props.C19.Wiring
+open Litep2pVerif Litep2pVerif.Node
+
+/-- Kademlia setter calls of the sample: a later call overrides an earlier one; zero bounds. -/
+def sampleSets : List KadSet := [.maxRecords 5, .replication 3, .maxRecords 0, .maxProviderKeys 0, .validationMode false]
+
+/-- A configuration with fallback names, zero store bounds and non-default transport settings (non-vacuity examples). -/
+def sample : Config :=
+  { keepAliveMs := some 600, listen := [1],
+    notif := [{ name := "/n/new", max := 32, handshake := "01", fallback := ["/n/a"], mode := 'a', sync := some 7, async := none,
+                dial := some false }],
+    rr := [{ name := "/r/new", max := 256, timeoutMs := 800, fallback := ["/r/a", "/r/b"], maxInbound := some 3 }],
+    user := [⟨"/u/a", .identity 8⟩],
+    kad := [{ names := ["/k/2", "/k/1"], max := some 2048,
+              sets := sampleSets }],
+    ping := some 1, identify := true, bitswap := true, maxParallelDials := some 0,
+    tcpSets := [.readAhead 3, .parallelDials 7, .writeBuffer 4] }
+
+/-- Every name of a request-response or notification protocol — main or fallback — is framed with the protocol's CONFIGURED
+maximum message size: the length-prefix decoder of such a substream refuses a larger frame before allocating for it. -/
+theorem fallback_name_keeps_configured_limit (c : Config) (w : Wired) (h : Node.new c = .ok w) :
+    (∀ p ∈ (build c).rr, ∀ x ∈ p.name :: p.fallback, protocolCodec w.regs x = some (.varint (some p.max))) ∧
+    (∀ p ∈ (build c).notif, ∀ x ∈ p.name :: p.fallback, protocolCodec w.regs x = some (.varint (some p.max))) := by
+  obtain ⟨hreg, _, rfl⟩ := wire_ok h
+  exact ⟨fun p hp x hx => (protocolSet_of_claim hreg (rr_mem_registrations _ hp) hx).1,
+         fun p hp x hx => (protocolSet_of_claim hreg (notif_mem_registrations _ hp) hx).1⟩
+
+example : ∃ w, Node.new sample = .ok w ∧ protocolCodec w.regs "/r/b" = some (.varint (some 256)) ∧
+    protocolCodec w.regs "/n/a" = some (.varint (some 32)) := ⟨_, rfl, by decide, by decide⟩
+
+end Litep2pVerif.Props.C19.Wiring
+
+#print axioms Litep2pVerif.Props.C19.Wiring.fallback_name_keeps_configured_limit
